@@ -1,6 +1,14 @@
 /-
 Cluster `obs`: the refinement invariant "hooks = from-scratch hooks of the current
-heap" and its preservation by mutations (fragment; see `InFragment`).
+heap" and its preservation by a trait assignment (fragment `SetFrag`; proof
+structure L3 / L4 of DESIGN.md §C08).
+
+Decomposition (L4).  Fix the mutated trait `o.n`.  Walking `g` from `x` in heap
+`h`, call a *visit* a node `named n` reached at object `o` (its children are
+then walked from the value of `o.n`).  `stable` collects everything the walk owes
+outside the sub-walks below top-level visits, `visits` the child graphs of the
+top-level visits.  For every heap `h'` that differs from `h` only in the value of
+`o.n` (`Rel`):   hookList h' g x  =  stable h g x  +  Σ_{c ∈ visits h g x} hookList h' c (new value).
 -/
 import TraitsVerif.Lemmas.ObsQuiet
 namespace TraitsVerif.Model.Obs
@@ -10,5 +18,319 @@ open TraitsVerif
 hooks hold exactly what the active registrations owe in the current heap. -/
 def HooksEqReach (h : Heap) (H : Hooks) (regs : List Reg) : Prop :=
   WF H ∧ ∀ o q, cnt H o q = specCnt h regs o q
+
+/-! ### graphs without `filtered` nodes -/
+
+def Observer.isFiltered : Observer → Bool
+  | .filtered .. => true
+  | _ => false
+
+mutual
+def Graph.noFiltered : Graph → Bool
+  | .node ob cs => !ob.isFiltered && Graph.noFilteredL cs
+def Graph.noFilteredL : List Graph → Bool
+  | [] => true
+  | c :: cs => Graph.noFiltered c && Graph.noFilteredL cs
+end
+
+theorem Graph.noFilteredL_iff (cs : List Graph) : Graph.noFilteredL cs = true ↔ ∀ c ∈ cs, c.noFiltered = true := by
+  induction cs with
+  | nil => simp [Graph.noFilteredL]
+  | cons c cs ih => simp [Graph.noFilteredL, ih]
+
+theorem Graph.noFiltered_node (ob : Observer) (cs : List Graph) :
+    (Graph.node ob cs).noFiltered = true ↔ ob.isFiltered = false ∧ ∀ c ∈ cs, c.noFiltered = true := by
+  simp [Graph.noFiltered, Graph.noFilteredL_iff]
+
+/-! ### visits of the mutated trait -/
+
+/-- the node reads `o.n` when it has children: a `named n` observer standing on `o` -/
+def readsAt (ob : Observer) (x : W) (o : Id) (n : Name) : Bool :=
+  match ob with
+  | .named m _ _ => x == some o && m == n
+  | _ => false
+
+mutual
+def visits (h : Heap) (o : Id) (n : Name) : Graph → W → List Graph
+  | .node ob cs, x =>
+    (if readsAt ob x o n && hasTrait h x n then cs else []) ++ visitsCs h o n ob x cs
+def visitsCs (h : Heap) (o : Id) (n : Name) (ob : Observer) (x : W) : List Graph → List Graph
+  | [] => []
+  | c :: cs =>
+    (if readsAt ob x o n then [] else (okOr [] (objects h ob x)).flatMap (fun y => visits h o n c y)) ++
+    visitsCs h o n ob x cs
+end
+
+mutual
+def stable (h : Heap) (k : HKey) (o : Id) (n : Name) (extra : Bool) : Graph → W → List Item
+  | .node ob cs, x =>
+    ownItems h k ob cs x ++ stableCs h k o n ob x cs ++
+    (if extra then (okOr [] (extraObservables h ob x)).map (fun ob' => (ob', NKey.maint .added (.node ob cs) k)) else [])
+def stableCs (h : Heap) (k : HKey) (o : Id) (n : Name) (ob : Observer) (x : W) : List Graph → List Item
+  | [] => []
+  | c :: cs =>
+    (if readsAt ob x o n then [] else (okOr [] (objects h ob x)).flatMap (fun y => stable h k o n true c y)) ++
+    stableCs h k o n ob x cs
+end
+
+/-- `h'` differs from `h` at most in the value of `o.n`, which is `new` in `h'`. -/
+structure Rel (h h' : Heap) (o : Id) (n : Name) (new : Val) : Prop where
+  obs : ∀ ob x, ob.isFiltered = false → observables h' ob x = observables h ob x
+  ext : ∀ ob x, ob.isFiltered = false → extraObservables h' ob x = extraObservables h ob x
+  objs : ∀ ob x, ob.isFiltered = false → readsAt ob x o n = false → objects h' ob x = objects h ob x
+  objsR : ∀ ob x, readsAt ob x o n = true → hasTrait h x n = true → objects h' ob x = .ok (valObjects new)
+  objsN : ∀ ob x, readsAt ob x o n = true → hasTrait h x n = false → objects h' ob x = objects h ob x
+
+/-- sum of a count over the blocks below the visits -/
+def blocks (h' : Heap) (k : HKey) (new : Val) (vs : List Graph) (o' : Observable) (q : NKey) : Nat :=
+  (vs.map (fun c => cntItems ((valObjects new).flatMap (fun w => hookList h' k true c w)) o' q)).sum
+
+theorem blocks_append (h' : Heap) (k : HKey) (new : Val) (a b : List Graph) (o' : Observable) (q : NKey) :
+    blocks h' k new (a ++ b) o' q = blocks h' k new a o' q + blocks h' k new b o' q := by
+  simp [blocks, List.map_append, List.sum_append]
+
+theorem blocks_nil (h' : Heap) (k : HKey) (new : Val) (o' : Observable) (q : NKey) :
+    blocks h' k new [] o' q = 0 := rfl
+
+theorem blocks_flatMap {α} (h' : Heap) (k : HKey) (new : Val) (l : List α) (f : α → List Graph)
+    (o' : Observable) (q : NKey) :
+    blocks h' k new (l.flatMap f) o' q = (l.map (fun a => blocks h' k new (f a) o' q)).sum := by
+  induction l with
+  | nil => rfl
+  | cons a l ih => simp [List.flatMap_cons, blocks_append, ih]
+
+theorem sum_map_add {α} (l : List α) (f g : α → Nat) :
+    (l.map (fun a => f a + g a)).sum = (l.map f).sum + (l.map g).sum := by
+  induction l with
+  | nil => rfl
+  | cons a l ih => simp [ih]; omega
+
+/-- L4, one heap at a time. -/
+def DecSpec (h h' : Heap) (k : HKey) (o : Id) (n : Name) (new : Val) (g : Graph) : Prop :=
+  g.noFiltered = true → ∀ (e : Bool) (x : W) (o' : Observable) (q : NKey),
+    cntItems (hookList h' k e g x) o' q =
+      cntItems (stable h k o n e g x) o' q + blocks h' k new (visits h o n g x) o' q
+
+theorem ownItems_rel {h h' : Heap} {o : Id} {n : Name} {new : Val} (R : Rel h h' o n new) (k : HKey)
+    (ob : Observer) (cs : List Graph) (x : W) (hf : ob.isFiltered = false) :
+    ownItems h' k ob cs x = ownItems h k ob cs x := by
+  simp [ownItems, R.obs ob x hf]
+
+theorem dec {h h' : Heap} {o : Id} {n : Name} {new : Val} (R : Rel h h' o n new) (k : HKey) :
+    ∀ g, DecSpec h h' k o n new g := by
+  apply Graph.ind
+  intro ob cs ih hnf e x o' q
+  obtain ⟨hf, hcs⟩ := (Graph.noFiltered_node ob cs).1 hnf
+  -- children part
+  have hC : ∀ cs' : List Graph, (∀ c ∈ cs', c ∈ cs) →
+      cntItems (hookListCs h' k ob x cs') o' q =
+        cntItems (stableCs h k o n ob x cs') o' q +
+        blocks h' k new ((if readsAt ob x o n && hasTrait h x n then cs' else []) ++ visitsCs h o n ob x cs') o' q := by
+    intro cs'
+    induction cs' with
+    | nil => intro _; simp [hookListCs, stableCs, visitsCs, cntItems_nil, blocks_nil]
+    | cons c cs' ihc =>
+      intro hsub
+      have hc := hsub c (List.mem_cons_self ..)
+      have ihc' := ihc (fun c' hc' => hsub c' (List.mem_cons_of_mem _ hc'))
+      rw [hookListCs_cons, cntItems_append, ihc']
+      simp only [stableCs, visitsCs, cntItems_append, blocks_append]
+      by_cases hr : readsAt ob x o n = true
+      · by_cases ht : hasTrait h x n = true
+        · -- a visit: the children are walked from the new value of `o.n`
+          simp only [hr, ht, Bool.and_self, if_true, cntItems_nil, blocks_nil, R.objsR ob x hr ht, okOr]
+          have : blocks h' k new (c :: cs') o' q =
+              cntItems ((valObjects new).flatMap (fun w => hookList h' k true c w)) o' q + blocks h' k new cs' o' q := by
+            simp [blocks]
+          rw [this]; omega
+        · have ht' : hasTrait h x n = false := by simpa using ht
+          have hobj : (okOr [] (objects h' ob x) : List W) = [] := by
+            rw [R.objsN ob x hr ht']
+            cases ob with
+            | named m nt opt =>
+              simp only [readsAt, Bool.and_eq_true, beq_iff_eq] at hr
+              obtain ⟨_, rfl⟩ := hr
+              simp only [objects, ht', Bool.false_eq_true, if_false]
+              split <;> rfl
+            | _ => simp [readsAt] at hr
+          simp only [hr, ht', Bool.and_false, Bool.false_eq_true, if_false, if_true, hobj, List.flatMap_nil,
+            cntItems_nil, blocks_nil, List.nil_append]
+          omega
+      · have hr' : readsAt ob x o n = false := by simpa using hr
+        simp only [hr', Bool.false_and, Bool.false_eq_true, if_false, List.nil_append, R.objs ob x hf hr']
+        rw [cntItems_flatMap, cntItems_flatMap, blocks_flatMap]
+        have : ∀ y, cntItems (hookList h' k true c y) o' q =
+            cntItems (stable h k o n true c y) o' q + blocks h' k new (visits h o n c y) o' q :=
+          fun y => ih c hc (hcs c hc) true y o' q
+        simp only [this, sum_map_add]
+        simp only [blocks_nil, blocks_append] at *
+        omega
+  rw [hookList_node, cntItems_append, cntItems_append, hC cs (fun c hc => hc)]
+  simp only [stable, visits, cntItems_append, ownItems_rel R k ob cs x hf, R.ext ob x hf, extraItems]
+  omega
+
+/-! ### instances of `Rel` -/
+
+theorem Rel.self (h : Heap) (o : Id) (n : Name) : Rel h h o n (fieldVal h (some o) n) where
+  obs := fun _ _ _ => rfl
+  ext := fun _ _ _ => rfl
+  objs := fun _ _ _ _ => rfl
+  objsN := fun _ _ _ _ => rfl
+  objsR := by
+    intro ob x hr ht
+    cases ob with
+    | named m nt opt =>
+      simp only [readsAt, Bool.and_eq_true, beq_iff_eq] at hr
+      obtain ⟨rfl, rfl⟩ := hr
+      simp [objects, ht]
+    | _ => simp [readsAt] at hr
+
+theorem findField_setFieldVal (fs : List Field) (n m : Name) (v : Val) :
+    findField (setFieldVal fs n v) m =
+      (findField fs m).map (fun fl => if fl.name == n then { fl with val := v } else fl) := by
+  induction fs with
+  | nil => rfl
+  | cons f fs ih =>
+    unfold findField setFieldVal at *
+    simp only [List.map_cons, List.find?_cons]
+    by_cases hn : (f.name == n) = true
+    · simp only [hn, if_true]
+      cases hm : (f.name == m) with
+      | true => simp [hn]
+      | false => simpa using ih
+    · have hn' : (f.name == n) = false := by simpa using hn
+      simp only [hn', Bool.false_eq_true, if_false]
+      cases hm : (f.name == m) with
+      | true => simp [hn']
+      | false => simpa using ih
+
+section store
+variable {h : Heap} {o : Id} {n : Name} {fs : List Field} {f : Field}
+
+theorem storeField_eq (v : Val) (ho : h.get o = .inst fs) :
+    storeField h o n v = h.upd o (.inst (setFieldVal fs n v)) := by
+  simp [storeField, ho]
+
+theorem store_get (v : Val) (ho : h.get o = .inst fs) (i : Id) :
+    (storeField h o n v).get i = if i = o then .inst (setFieldVal fs n v) else h.get i := by
+  rw [storeField_eq v ho, Heap.get_upd]
+
+theorem store_at_ne (v : Val) (ho : h.get o = .inst fs) (x : W) (hx : x ≠ some o) :
+    (storeField h o n v).at x = h.at x := by
+  cases x with
+  | none => rfl
+  | some i =>
+    have : i ≠ o := fun e => hx (by rw [e])
+    simp [Heap.at, store_get v ho, this]
+
+theorem store_at_o (v : Val) (ho : h.get o = .inst fs) :
+    (storeField h o n v).at (some o) = .inst (setFieldVal fs n v) := by
+  simp [Heap.at, store_get v ho]
+
+theorem store_hasTrait (v : Val) (ho : h.get o = .inst fs) (x : W) (m : Name) :
+    hasTrait (storeField h o n v) x m = hasTrait h x m := by
+  by_cases hx : x = some o
+  · subst hx
+    simp only [hasTrait, Heap.at, store_get v ho, if_true, ho, findField_setFieldVal]
+    cases findField fs m <;> rfl
+  · simp [hasTrait, store_at_ne v ho x hx]
+
+theorem store_fieldVal_other (v : Val) (ho : h.get o = .inst fs) (x : W) (m : Name)
+    (hne : ¬ (x = some o ∧ m = n)) : fieldVal (storeField h o n v) x m = fieldVal h x m := by
+  by_cases hx : x = some o
+  · subst hx
+    have hm : m ≠ n := fun e => hne ⟨rfl, e⟩
+    simp only [fieldVal, Heap.at, store_get v ho, if_true, ho, findField_setFieldVal]
+    cases hf : findField fs m with
+    | none => rfl
+    | some fl =>
+      have : fl.name = m := by
+        have := List.find?_some hf
+        simpa using this
+      have hfn : (fl.name == n) = false := by simp [this, hm]
+      simp [hfn]
+  · simp [fieldVal, store_at_ne v ho x hx]
+
+theorem store_fieldVal_self (v : Val) (ho : h.get o = .inst fs) (hf : findField fs n = some f) :
+    fieldVal (storeField h o n v) (some o) n = v := by
+  have : f.name = n := by
+    have := List.find?_some hf
+    simpa using this
+  simp [fieldVal, Heap.at, store_get v ho, findField_setFieldVal, hf, this]
+
+theorem Rel.store (v : Val) (ho : h.get o = .inst fs) : Rel h (storeField h o n v) o n v where
+  obs := by
+    intro ob x hf
+    cases ob with
+    | named m nt opt => simp only [observables, store_hasTrait v ho]
+    | filtered fl nt => simp [Observer.isFiltered] at hf
+    | listItems nt opt =>
+      by_cases hx : x = some o
+      · subst hx; simp [observables, store_at_o v ho, Heap.at, ho]
+      · simp [observables, store_at_ne v ho x hx]
+    | dictItems nt opt =>
+      by_cases hx : x = some o
+      · subst hx; simp [observables, store_at_o v ho, Heap.at, ho]
+      · simp [observables, store_at_ne v ho x hx]
+    | setItems nt opt =>
+      by_cases hx : x = some o
+      · subst hx; simp [observables, store_at_o v ho, Heap.at, ho]
+      · simp [observables, store_at_ne v ho x hx]
+  ext := by
+    intro ob x hf
+    cases ob with
+    | named m nt opt =>
+      by_cases hx : x = some o
+      · subst hx; simp [extraObservables, store_at_o v ho, Heap.at, ho]
+      · simp [extraObservables, store_at_ne v ho x hx]
+    | filtered fl nt => simp [Observer.isFiltered] at hf
+    | listItems nt opt => rfl
+    | dictItems nt opt => rfl
+    | setItems nt opt => rfl
+  objs := by
+    intro ob x hf hr
+    cases ob with
+    | named m nt opt =>
+      have hne : ¬ (x = some o ∧ m = n) := by
+        intro ⟨a, b⟩
+        simp [readsAt, a, b] at hr
+      simp only [objects, store_hasTrait v ho, store_fieldVal_other v ho x m hne]
+    | filtered fl nt => simp [Observer.isFiltered] at hf
+    | listItems nt opt =>
+      by_cases hx : x = some o
+      · subst hx; simp [objects, store_at_o v ho, Heap.at, ho]
+      · simp [objects, store_at_ne v ho x hx]
+    | dictItems nt opt =>
+      by_cases hx : x = some o
+      · subst hx; simp [objects, store_at_o v ho, Heap.at, ho]
+      · simp [objects, store_at_ne v ho x hx]
+    | setItems nt opt =>
+      by_cases hx : x = some o
+      · subst hx; simp [objects, store_at_o v ho, Heap.at, ho]
+      · simp [objects, store_at_ne v ho x hx]
+  objsR := by
+    intro ob x hr ht
+    cases ob with
+    | named m nt opt =>
+      simp only [readsAt, Bool.and_eq_true, beq_iff_eq] at hr
+      obtain ⟨rfl, rfl⟩ := hr
+      have : ∃ f, findField fs m = some f := by
+        simp only [hasTrait, Heap.at, ho] at ht
+        cases hf : findField fs m with
+        | none => simp [hf] at ht
+        | some f => exact ⟨f, rfl⟩
+      obtain ⟨f, hf⟩ := this
+      simp [objects, store_hasTrait v ho, ht, store_fieldVal_self v ho hf]
+    | _ => simp [readsAt] at hr
+  objsN := by
+    intro ob x hr ht
+    cases ob with
+    | named m nt opt =>
+      simp only [readsAt, Bool.and_eq_true, beq_iff_eq] at hr
+      obtain ⟨rfl, rfl⟩ := hr
+      simp [objects, store_hasTrait v ho, ht]
+    | _ => simp [readsAt] at hr
+
+end store
 
 end TraitsVerif.Model.Obs
